@@ -609,12 +609,121 @@ def run_live(shard, acc):
     acc.case(dict(kind="live"), True, viols)
 
 
+# ---- real kernel: descriptors of a real child are closed at each access point of open_files() ---------------------
+
+REALCLOSE_CHILD = r"""
+import os, sys
+d = sys.argv[1]
+fds = {}
+for i in range(5):
+    p = os.path.join(d, "f%d.dat" % i)
+    open(p, "wb").write(b"x" * 100)
+    fd = os.open(p, os.O_RDWR)
+    os.lseek(fd, 10 * i, os.SEEK_SET)
+    fds[i] = fd
+print("up " + " ".join("%d:%d" % kv for kv in fds.items()), flush=True)
+for line in sys.stdin:
+    cmd = line.split()
+    if cmd[0] == "close":
+        for x in cmd[1:]:
+            try:
+                os.close(int(x))
+            except OSError:
+                pass
+        print("ok", flush=True)
+"""
+
+
+def run_realclose(shard, acc):
+    import subprocess
+    import sys
+    env = setup()
+    ps, vkernel = env["ps"], env["vkernel"]
+    ps.PROCFS_PATH = "/proc"
+    envp = {k: v for k, v in os.environ.items() if k != "LD_PRELOAD"}
+
+    def one(k, victims_idx):
+        tmp = tempfile.mkdtemp(prefix="c14rc_")
+        child = subprocess.Popen([sys.executable, "-S", "-c", REALCLOSE_CHILD, tmp], env=envp, stdin=subprocess.PIPE, stdout=subprocess.PIPE,
+                                 text=True)
+        fired = []
+        try:
+            head = child.stdout.readline().split()
+            if not head or head[0] != "up":
+                return None
+            fdmap = {int(a.split(":")[0]): int(a.split(":")[1]) for a in head[1:]}
+            victims = [fdmap[i] for i in victims_idx]
+            vk = vkernel.VK()
+            vk.redirect("/proc", "/proc")
+            vk.hook_reads = True
+            with vk:
+                pr = ps.Process(child.pid)
+                base = len(vk.log)
+                if k is not None:
+                    def act(vk_, kind, path):
+                        fired.append((kind, path))
+                        child.stdin.write("close " + " ".join(map(str, victims)) + "\n")
+                        child.stdin.flush()
+                        child.stdout.readline()
+                        return None
+                    vk.plan[base + k] = act
+                try:
+                    rows = pr.open_files()
+                    out = ("ok", rows)
+                except Exception as e:  # noqa: BLE001
+                    out = ("exc", e)
+                n = len(vk.log) - base
+            return out, n, fired, fdmap, victims, tmp
+        finally:
+            child.kill()
+            child.wait()
+            child.stdin.close()
+            child.stdout.close()
+            shutil.rmtree(tmp, ignore_errors=True)
+    r0 = one(None, [])
+    if r0 is None:
+        acc.inconclusive = "realclose child did not start"
+        return
+    n = r0[1]
+    acc.extra["realclose_access_points"] = n
+    for k in range(n):
+        for victims_idx in ([2], [0, 4], [0, 1, 2, 3, 4]):
+            r = one(k, victims_idx)
+            if r is None:
+                continue
+            out, _n, fired, fdmap, victims, tmp = r
+            viols = []
+            case = dict(kind="realclose", k=k, victims=victims_idx)
+            if fired:
+                acc.count("plan_faults_fired")
+                acc.count("real_kernel_closes_fired")
+            if out[0] == "exc":
+                viols.append((f"open_files_exception:{type(out[1]).__name__}:midscan_close",
+                              f"REAL KERNEL: open_files raised {out[1]!r} for a live process; descriptors {victims} closed at access #{k} {fired}"))
+            else:
+                acc.count("midscan_close_survived")
+                got = {r_.fd: r_ for r_ in out[1] if r_.path.startswith(tmp)}
+                for i, fd in fdmap.items():
+                    want_path = os.path.join(tmp, "f%d.dat" % i)
+                    if fd in victims and fired:
+                        if fd in got and got[fd].path != want_path:
+                            viols.append(("open_files_entry_wrong", f"REAL KERNEL: closed fd {fd}: {got[fd]!r}"))
+                        continue
+                    acc.count("entries_compared")
+                    if fd not in got:
+                        viols.append(("open_files_misses_file:reg", f"REAL KERNEL: fd {fd} -> {want_path} not listed after {victims} closed at #{k}"))
+                    elif (got[fd].path, got[fd].position, got[fd].mode) != (want_path, 10 * i, "r+"):
+                        viols.append(("open_files_entry_wrong", f"REAL KERNEL: fd {fd}: {got[fd]!r}"))
+            acc.case(case, bool(fired), viols)
+
+
 def plan(tier, seed):
     n = 40000 if tier == "quick" else 2_000_000
     shards = [dict(kind="flagwords")]
     for s, c in harness.split_range(n, 16 if tier == "quick" else 48):
         shards.append(dict(kind="gen", seed=seed, start=s, count=c))
     shards.append(dict(kind="live"))
+    shards.append(dict(kind="realclose"))
     return shards
 
 
@@ -636,9 +745,13 @@ def run_shard(shard):
                 run_case(gen_case(rng), acc)
         elif shard["kind"] == "live":
             run_live(shard, acc)
+        elif shard["kind"] == "realclose":
+            run_realclose(shard, acc)
         elif shard["kind"] == "cases":
             for case in shard["cases"]:
-                if case.get("kind") == "live":
+                if case.get("kind") == "realclose":
+                    run_realclose({}, acc)
+                elif case.get("kind") == "live":
                     run_live({}, acc)
                 else:
                     run_case(case, acc)
